@@ -41,6 +41,10 @@ CHECKS = {
  "C11": ("exploration", "property-based testing with structural JSON mutation, arbitrary JSON/text generation and a grammar generator; totality, operation-totality, well-formedness-walker and completeness oracles",
          "Mutated, arbitrary and generated schema texts: the three parser entry points return and agree; every operation on an accepted schema completes; accepted schemas pass the harness's well-formedness walker; generated well-formed schemas are accepted.",
          "Well-formedness as implemented by the harness's walker over the library's public Schema fields; hangs are not decided (only panics/errors).", "DESIGN.md §4 C11"),
+
+ "C07": ("exploration", "property-based testing over generated non-canonical value forms; the library's validate() splits accepted/rejected, oracle = harness canonical-form predicate + no-byte-written check over three writers",
+         "Accepted forms must be written by the datum, container and single-object writers and read back (library and reference decoder) as a canonical form of the value; rejected forms must leave sink, file and message untouched.",
+         "Canonical forms come from the harness's own denotes() predicate; bare-value-in-union and near-miss forms are applied alone, other forms in combinations.", "DESIGN.md §4 C07"),
 }
 NOT_YET = {}
 
